@@ -12,6 +12,9 @@
      (write, …, $t:ty)                 write_sty (Named n): v._write
      (read, … ;nowrite = e)            read_fields, FMut with Some e: value := e, nothing consumed
      (read, …, Vec<it> [iat] / {l})    read_ty
+     (read, …, Vec<it> slots {l})      read_ty, VSlots / read_slots: elements are read until exactly l
+                                       indices are used up, an element taking `slots()` of them
+                                       (impl CpInfo::slots: 2 for the variants flagged [v_wide], else 1)
      (read, …, u8|u16|u32)             dec (read_exact: Err at end of input)
      (check, c, literal)               read_fields, FConst with a literal expression: compared
      (check, c, expr)                  read_fields, FConst otherwise: bound, not compared
@@ -40,6 +43,7 @@ Inductive expr :=
 | ELit (n : N)
 | EVar (x : id)          (* a number held by a field / const / tag / pattern variable *)
 | ELen (x : id)          (* x.len() of a vector field *)
+| ESlots (x elt : id)    (* pool_slots(&this.x): sum of slots() over the vector field x of [elt]s *)
 | ESelfLen               (* this._len() *)
 | EAdd (a b : expr) | ESub (a b : expr) | EMul (a b : expr).
 (* an expression together with the width (in bits) of the Rust integer type it is computed at:
@@ -50,7 +54,8 @@ Record cexpr := CE { ce_aw : N; ce_e : expr }.
 Inductive sty := Prim (w : width) | Named (n : id).
 Inductive veck :=
 | VCount (w : width)     (* Vec<it> [iat]: count of type iat in front *)
-| VLen (e : cexpr).      (* Vec<it> {l}: length given by an expression, nothing written *)
+| VLen (e : cexpr)       (* Vec<it> {l}: length given by an expression, nothing written *)
+| VSlots (e : cexpr).    (* Vec<it> slots {l}: number of indices taken up given by an expression *)
 Inductive ty := One (t : sty) | Vec (t : sty) (k : veck).
 
 Inductive field :=
@@ -65,7 +70,9 @@ Inductive guard :=
 | GNone
 | GPoolUtf8 (idx : cexpr) (s : list N). (* if pool_has_utf8(pool, idx, b"...")? *)
 
-Record variant := Variant { v_name : id; v_tagw : cexpr; v_pat : pat; v_guard : guard; v_fields : list field }.
+(* [v_wide]: `slots()` of the variant is 2 (impl CpInfo: Long, Double), otherwise 1 *)
+Record variant := Variant { v_name : id; v_tagw : cexpr; v_pat : pat; v_guard : guard; v_fields : list field;
+                            v_wide : bool }.
 
 Inductive decl :=
 | DStruct (fs : list field)
@@ -106,21 +113,35 @@ Fixpoint unbe (acc : N) (k : nat) (bs : list N) : res (N * list N) :=
   end.
 Definition dec (w : width) (bs : list N) : res (N * list N) := unbe 0 (wbytes w) bs.
 
+(* ---------- slots(): how many indices an element of a `slots` vector takes up ---------- *)
+(* fn slots(&self) of an enum: 2 for the flagged variants, 1 otherwise (anything that is not a
+   value of a declared enum: 1) *)
+Definition is_wide (D : denv) (elt : id) (v : val) : bool :=
+  match lookup D elt, v with
+  | Some (DEnum _ _ vars _), VV k _ => match nth_error vars k with Some va => v_wide va | None => false end
+  | _, _ => false
+  end.
+Definition slots1 (wide : val -> bool) (v : val) : N := if wide v then 2 else 1.
+(* fn pool_slots: pool.iter().map(CpInfo::slots).sum() *)
+Fixpoint slots_of (wide : val -> bool) (l : list val) : N :=
+  match l with [] => 0 | v :: l' => slots1 wide v + slots_of wide l' end.
+
 (* ---------- expressions ---------- *)
-Fixpoint eval (aw : N) (env : venv) (sl : res N) (e : expr) : res N :=
+Fixpoint eval (D : denv) (aw : N) (env : venv) (sl : res N) (e : expr) : res N :=
   match e with
   | ELit n => Ok n
   | EVar x => match lookup env x with Some (VN n) => Ok n | _ => Err end
   | ELen x => match lookup env x with Some (VL l) => Ok (N.of_nat (length l)) | _ => Err end
+  | ESlots x elt => match lookup env x with Some (VL l) => Ok (slots_of (is_wide D elt) l) | _ => Err end
   | ESelfLen => do n <- sl; if n <? 4294967296 then Ok n else Err   (* _len() : u32 *)
-  | EAdd a b => do x <- eval aw env sl a; do y <- eval aw env sl b;
+  | EAdd a b => do x <- eval D aw env sl a; do y <- eval D aw env sl b;
                 if x + y <? 2 ^ aw then Ok (x + y) else Err
-  | ESub a b => do x <- eval aw env sl a; do y <- eval aw env sl b;
+  | ESub a b => do x <- eval D aw env sl a; do y <- eval D aw env sl b;
                 if y <=? x then Ok (x - y) else Err
-  | EMul a b => do x <- eval aw env sl a; do y <- eval aw env sl b;
+  | EMul a b => do x <- eval D aw env sl a; do y <- eval D aw env sl b;
                 if x * y <? 2 ^ aw then Ok (x * y) else Err
   end.
-Definition ceval (env : venv) (sl : res N) (e : cexpr) : res N := eval (ce_aw e) env sl (ce_e e).
+Definition ceval (D : denv) (env : venv) (sl : res N) (e : cexpr) : res N := eval D (ce_aw e) env sl (ce_e e).
 
 (* names of the mut fields zipped with the stored values: what `self.f` / the match bindings see *)
 Fixpoint bind_fields (fs : list field) (vs : list val) : venv :=
@@ -146,7 +167,7 @@ Definition len_ty (rec : sty -> val -> res N) (t : ty) (v : val) : res N :=
   | Vec s k =>
       match v with
       | VL l => do n <- sum_map (rec s) l;
-                Ok (match k with VCount w => N.of_nat (wbytes w) | VLen _ => 0 end + n)
+                Ok (match k with VCount w => N.of_nat (wbytes w) | VLen _ | VSlots _ => 0 end + n)
       | _ => Err
       end
   end.
@@ -196,7 +217,7 @@ Definition write_ty (rec : sty -> val -> res (list N)) (t : ty) (v : val) : res 
   | Vec s k =>
       match v with
       | VL l => do body <- concat_map (rec s) l;
-                Ok (match k with VCount w => enc w (N.of_nat (length l)) | VLen _ => [] end ++ body)
+                Ok (match k with VCount w => enc w (N.of_nat (length l)) | VLen _ | VSlots _ => [] end ++ body)
       | _ => Err
       end
   end.
@@ -225,12 +246,12 @@ Fixpoint write_sty (D : denv) (fuel : nat) (t : sty) (v : val) {struct fuel} : r
       | S f =>
           match lookup D n, v with
           | Some (DStruct fs), VS vs =>
-              write_fields (write_sty D f) (ceval (bind_fields fs vs) (len_sty D fuel t v)) fs vs
+              write_fields (write_sty D f) (ceval D (bind_fields fs vs) (len_sty D fuel t v)) fs vs
           | Some (DEnum _ tw vars _), VV k vs =>
               match nth_error vars k with
               | None => Err
               | Some va =>
-                  let ev := ceval (bind_fields (v_fields va) vs) (len_sty D fuel t v) in
+                  let ev := ceval D (bind_fields (v_fields va) vs) (len_sty D fuel t v) in
                   do tg <- ev (v_tagw va);
                   do body <- write_fields (write_sty D f) ev (v_fields va) vs;
                   Ok (enc tw tg ++ body)
@@ -243,8 +264,8 @@ Fixpoint write_sty (D : denv) (fuel : nat) (t : sty) (v : val) {struct fuel} : r
 (* ---------- read ---------- *)
 Definition pool := option (list val).
 
-(* fn pool_has_utf8(pool, index, value) of lib.rs: Err without pool, for index 0 (u16 underflow),
-   for an index past the end, and for an entry that is not CpInfo::Utf8 *)
+(* fn pool_has_utf8(pool, index, value) of lib.rs: Err without pool, for an index no entry starts at
+   (0, the second index of a Long/Double, past the end), and for an entry that is not CpInfo::Utf8 *)
 Definition utf8_variant (D : denv) : option nat :=
   match lookup D "CpInfo"%string with
   | Some (DEnum _ _ vars _) =>
@@ -261,12 +282,19 @@ Fixpoint bytes_eqb (l : list val) (s : list N) : bool :=
   | VN a :: l', b :: s' => N.eqb a b && bytes_eqb l' s'
   | _, _ => false
   end.
+(* fn pool_get(pool, index): the entry that starts at [index], the first entry starting at 1 and an
+   entry taking up slots() indices *)
+Fixpoint pool_get (wide : val -> bool) (entries : list val) (slot index : N) : option val :=
+  match entries with
+  | [] => None
+  | e :: r => if index <=? slot then (if slot =? index then Some e else None)
+              else pool_get wide r (slot + slots1 wide e) index
+  end.
 Definition pool_has_utf8 (D : denv) (p : pool) (index : N) (s : list N) : res bool :=
   match p with
   | None => Err
   | Some entries =>
-      if index =? 0 then Err else
-      match nth_error entries (N.to_nat (index - 1)), utf8_variant D with
+      match pool_get (is_wide D "CpInfo"%string) entries 1 index, utf8_variant D with
       | Some (VV k [VL bytes]), Some ku => if Nat.eqb k ku then Ok (bytes_eqb bytes s) else Err
       | _, _ => Err
       end
@@ -275,7 +303,7 @@ Definition pool_has_utf8 (D : denv) (p : pool) (index : N) (s : list N) : res bo
 Definition guard_eval (D : denv) (p : pool) (env : venv) (g : guard) : res bool :=
   match g with
   | GNone => Ok true
-  | GPoolUtf8 idx s => do i <- ceval env Err idx; pool_has_utf8 D p i s
+  | GPoolUtf8 idx s => do i <- ceval D env Err idx; pool_has_utf8 D p i s
   end.
 
 Definition pat_match (p : pat) (tg : N) : option venv :=
@@ -314,12 +342,34 @@ Definition read_vec (rd : list N -> res (val * list N)) (n : N) (bs : list N) : 
   then do (vs, bs') <- read_n rd (N.to_nat n) bs; Ok (VL vs, bs')
   else Err.
 
-Definition read_ty (rec : pool -> sty -> list N -> res (val * list N)) (p : pool) (env : venv)
+(* `while used < slots { read; used += i.slots() }  if used != slots { Err }`: [k] = slots - used.
+   An element takes one or two indices, so the loop runs at most [k] times; a two-index element
+   with one index left overshoots (Err). *)
+Fixpoint read_slots (rd : list N -> res (val * list N)) (wide : val -> bool) (k : nat) (bs : list N)
+  : res (list val * list N) :=
+  match k with
+  | O => Ok ([], bs)
+  | S k' =>
+      do (v, bs1) <- rd bs;
+      if wide v
+      then match k' with
+           | O => Err
+           | S k'' => do (vs, bs2) <- read_slots rd wide k'' bs1; Ok (v :: vs, bs2)
+           end
+      else do (vs, bs2) <- read_slots rd wide k' bs1; Ok (v :: vs, bs2)
+  end.
+
+Definition wide_sty (D : denv) (s : sty) : val -> bool :=
+  match s with Named n => is_wide D n | Prim _ => fun _ => false end.
+
+Definition read_ty (D : denv) (rec : pool -> sty -> list N -> res (val * list N)) (p : pool) (env : venv)
            (t : ty) (bs : list N) : res (val * list N) :=
   match t with
   | One s => rec p s bs
   | Vec s (VCount w) => do (n, bs1) <- dec w bs; read_vec (rec p s) n bs1
-  | Vec s (VLen e) => do n <- ceval env Err e; read_vec (rec p s) n bs
+  | Vec s (VLen e) => do n <- ceval D env Err e; read_vec (rec p s) n bs
+  | Vec s (VSlots e) => do n <- ceval D env Err e;
+                        do (vs, bs') <- read_slots (rec p s) (wide_sty D s) (N.to_nat n) bs; Ok (VL vs, bs')
   end.
 
 Definition lit_of (e : cexpr) : option N := match ce_e e with ELit m => Some m | _ => None end.
@@ -328,7 +378,7 @@ Definition lit_of (e : cexpr) : option N := match ce_e e with ELit m => Some m |
    them and never looks at them again; the strict reader compares them afterwards *)
 Definition cobs := list (width * cexpr * N).
 
-Fixpoint read_fields (rec : pool -> sty -> list N -> res (val * list N)) (p : pool) (env : venv)
+Fixpoint read_fields (D : denv) (rec : pool -> sty -> list N -> res (val * list N)) (p : pool) (env : venv)
          (fs : list field) (bs : list N) : res (list val * cobs * list N) :=
   match fs with
   | [] => Ok ([], [], bs)
@@ -336,19 +386,19 @@ Fixpoint read_fields (rec : pool -> sty -> list N -> res (val * list N)) (p : po
       do (n, bs1) <- dec w bs;
       match lit_of e with
       | Some m => if n =? m
-                  then read_fields rec p ((x, VN n) :: env) fs' bs1
+                  then read_fields D rec p ((x, VN n) :: env) fs' bs1
                   else Err
-      | None => do (vs, cs, bs2) <- read_fields rec p ((x, VN n) :: env) fs' bs1;
+      | None => do (vs, cs, bs2) <- read_fields D rec p ((x, VN n) :: env) fs' bs1;
                 Ok (vs, (w, e, n) :: cs, bs2)
       end
   | FMut x t (Some e) sp :: fs' =>
-      do n <- ceval env Err e;
-      do (vs, cs, bs2) <- read_fields rec p ((x, VN n) :: env) fs' bs;
+      do n <- ceval D env Err e;
+      do (vs, cs, bs2) <- read_fields D rec p ((x, VN n) :: env) fs' bs;
       Ok (VN n :: vs, cs, bs2)
   | FMut x t None sp :: fs' =>
-      do (v, bs1) <- read_ty rec p env t bs;
+      do (v, bs1) <- read_ty D rec p env t bs;
       let p' := if sp then match v with VL l => Some l | _ => None end else p in
-      do (vs, cs, bs2) <- read_fields rec p' ((x, v) :: env) fs' bs1;
+      do (vs, cs, bs2) <- read_fields D rec p' ((x, v) :: env) fs' bs1;
       Ok (v :: vs, cs, bs2)
   end.
 
@@ -370,16 +420,16 @@ Fixpoint read_sty (D : denv) (strict : bool) (fuel : nat) (p : pool) (t : sty) (
       | S f =>
           match lookup D n with
           | Some (DStruct fs) =>
-              do (vs, cs, bs') <- read_fields (read_sty D strict f) p [] fs bs;
+              do (vs, cs, bs') <- read_fields D (read_sty D strict f) p [] fs bs;
               let v := VS vs in
-              if negb strict || consts_agree (ceval (bind_fields fs vs) (len_sty D fuel t v)) cs
+              if negb strict || consts_agree (ceval D (bind_fields fs vs) (len_sty D fuel t v)) cs
               then Ok (v, bs') else Err
           | Some (DEnum tv tw vars _) =>
               do (tg, bs1) <- dec tw bs;
               do (k, va, env) <- select D p [(tv, VN tg)] tg vars O;
-              do (vs, cs, bs') <- read_fields (read_sty D strict f) p env (v_fields va) bs1;
+              do (vs, cs, bs') <- read_fields D (read_sty D strict f) p env (v_fields va) bs1;
               let v := VV k vs in
-              let ev := ceval (bind_fields (v_fields va) vs) (len_sty D fuel t v) in
+              let ev := ceval D (bind_fields (v_fields va) vs) (len_sty D fuel t v) in
               if negb strict ||
                  (match ev (v_tagw va) with Ok m => N.eqb (trunc tw m) tg | Err => false end
                   && consts_agree ev cs)
@@ -400,9 +450,11 @@ Fixpoint all_map (f : val -> bool) (l : list val) : bool :=
    - numbers and counts fit (above),
    - a literal const fits its width (so the reader's comparison succeeds),
    - a {len} expression evaluates, in the reader's scope, to the number of elements present,
+   - a slots {len} expression evaluates, in the reader's scope, to the number of indices the
+     elements present take up,
    - a nowrite expression evaluates, in the reader's scope, to the stored number,
    - the first arm of the enum that accepts the written tag is the value's own variant. *)
-Definition res_ty (rec : pool -> sty -> val -> bool) (p : pool) (renv : venv) (t : ty) (v : val) : bool :=
+Definition res_ty (D : denv) (rec : pool -> sty -> val -> bool) (p : pool) (renv : venv) (t : ty) (v : val) : bool :=
   match t with
   | One s => rec p s v
   | Vec s k =>
@@ -410,34 +462,35 @@ Definition res_ty (rec : pool -> sty -> val -> bool) (p : pool) (renv : venv) (t
       | VL l =>
           match k with
           | VCount w => N.of_nat (length l) <? wmod w
-          | VLen e => match ceval renv Err e with Ok n => N.eqb n (N.of_nat (length l)) | Err => false end
+          | VLen e => match ceval D renv Err e with Ok n => N.eqb n (N.of_nat (length l)) | Err => false end
+          | VSlots e => match ceval D renv Err e with Ok n => N.eqb n (slots_of (wide_sty D s) l) | Err => false end
           end && all_map (rec p s) l
       | _ => false
       end
   end.
 
-Fixpoint res_fields (rec : pool -> sty -> val -> bool) (ev : cexpr -> res N) (p : pool) (renv : venv)
+Fixpoint res_fields (D : denv) (rec : pool -> sty -> val -> bool) (ev : cexpr -> res N) (p : pool) (renv : venv)
          (fs : list field) (vs : list val) : bool :=
   match fs with
   | [] => match vs with [] => true | _ => false end
   | FConst x w e :: fs' =>
       match ev e with
       | Ok n => match lit_of e with Some m => m <? wmod w | None => true end
-                && res_fields rec ev p ((x, VN (trunc w n)) :: renv) fs' vs
+                && res_fields D rec ev p ((x, VN (trunc w n)) :: renv) fs' vs
       | Err => false
       end
   | FMut x t (Some e) sp :: fs' =>
       match vs with
       | VN n :: vs' =>
-          match ceval renv Err e with Ok m => N.eqb m n | Err => false end
-          && res_fields rec ev p ((x, VN n) :: renv) fs' vs'
+          match ceval D renv Err e with Ok m => N.eqb m n | Err => false end
+          && res_fields D rec ev p ((x, VN n) :: renv) fs' vs'
       | _ => false
       end
   | FMut x t None sp :: fs' =>
       match vs with
       | v :: vs' =>
-          res_ty rec p renv t v
-          && res_fields rec ev (if sp then match v with VL l => Some l | _ => None end else p)
+          res_ty D rec p renv t v
+          && res_fields D rec ev (if sp then match v with VL l => Some l | _ => None end else p)
                         ((x, v) :: renv) fs' vs'
       | [] => false
       end
@@ -452,18 +505,18 @@ Fixpoint resolves (D : denv) (fuel : nat) (p : pool) (t : sty) (v : val) {struct
       | S f =>
           match lookup D n, v with
           | Some (DStruct fs), VS vs =>
-              res_fields (resolves D f) (ceval (bind_fields fs vs) (len_sty D fuel t v)) p [] fs vs
+              res_fields D (resolves D f) (ceval D (bind_fields fs vs) (len_sty D fuel t v)) p [] fs vs
           | Some (DEnum tv tw vars _), VV k vs =>
               match nth_error vars k with
               | None => false
               | Some va =>
-                  let ev := ceval (bind_fields (v_fields va) vs) (len_sty D fuel t v) in
+                  let ev := ceval D (bind_fields (v_fields va) vs) (len_sty D fuel t v) in
                   match ev (v_tagw va) with
                   | Err => false
                   | Ok m =>
                       let tg := trunc tw m in
                       match select D p [(tv, VN tg)] tg vars O with
-                      | Ok (k', _, env) => Nat.eqb k' k && res_fields (resolves D f) ev p env (v_fields va) vs
+                      | Ok (k', _, env) => Nat.eqb k' k && res_fields D (resolves D f) ev p env (v_fields va) vs
                       | Err => false
                       end
                   end
